@@ -37,6 +37,37 @@ CLAIMED["C10"] = dict(
     technique="CBMC full-domain float contracts + DFCC loop contracts (_vnacal_rfi) + bounded knot harnesses",
 )
 
+CLAIMED["C16"] = dict(
+    level="proof",
+    text="The calibration slot vector and the parameter collection are verified as abstract tables: from ANY "
+         "well-formed table (representation invariants wf_caltable / wf_params: unique names, index==slot, "
+         "hold count = live + referrers + external holds, predefined handles permanent) each real operation "
+         "(add/replace, delete, find, get_*, get_calibration_end, alloc/make_scalar/make_unknown, "
+         "delete_parameter, release, teardown, get_parameter_value of a scalar) returns what the table model "
+         "predicts, touches no other slot and re-establishes the invariant; hence for every call history. "
+         "Bounded in table size (calibrations <= 8 slots + one growth step, parameters <= 8 slots with <= 4-5 live "
+         "user handles).",
+    note="bounded shapes; CORRELATED parameters and vnacal_new_t hash entries only as ghost external holds; "
+         "vnaproperty_delete by contract stub; vector/solved parameter VALUES are C10's rfi obligations",
+    design="DESIGN.md 3 C16, 8.3",
+    technique="CBMC contract harnesses (table invariants + whole-table postconditions) on the real functions",
+)
+CLAIMED["C11"] = dict(
+    level="proof",
+    text="(1) The real _vnaerr_verror is proved against the error-reporting contract all other harnesses assume: "
+         "errno class by category, user callback exactly once iff set, also when vasprintf fails - full domain. "
+         "(2) The six validating setters carry DFCC function contracts (requires/ensures/assigns) enforced on the "
+         "unmodified bodies: accepted iff the argument is valid, one EINVAL report otherwise, and - by the checked "
+         "assigns clause - nothing else in the object written. (3) 'Refused calls leave the object observably "
+         "unchanged' and 'returned indices are the ones the queries honour' are postconditions of the C15/C16 "
+         "harnesses, re-run here for vnadata_resize/init/set_type/cell/frequency/z0 setters and the vnacal "
+         "calibration/parameter tables.",
+    note="file loaders/savers (stdio), vnacal_new_add_* build-then-link, failed-solve retry: not covered; NaN "
+         "arguments to the double-valued setters not specified",
+    design="DESIGN.md 3 C11, 8.4",
+    technique="CBMC: full-domain contract on _vnaerr_verror + DFCC enforce-contract on setters + refusal postconditions",
+)
+
 NA = {
     "C02": "iterative floating-point convergence (Levenberg-Marquardt / TRL) has no contract CBMC can discharge; see DESIGN.md 3 C02",
     "C06": "property is about bytes written by fprintf and read by an independent reader; no CBMC model of formatted I/O (a stub would be the oracle); DESIGN.md 3 C06",
